@@ -224,11 +224,17 @@ fn gen(t: &mut Tape, _tier: Tier) -> Scenario {
     let mut input;
     match kind {
         0..=2 => {
-            // size-bounded LZMA, all three header options
-            let b = gen_lzma(t, 2, 3000);
+            // size-bounded LZMA, all three header options; now and then the payload
+            // carries an end marker as well (legal: LZMA SDK -eos with a known size) -
+            // the decode ends when the size is reached, in front of the marker
+            let sized_marker = t.below(5) == 0;
+            if sized_marker {
+                sc.set_i("sized_marker", 1);
+            }
+            let b = gen_lzma(t, if sized_marker { 1 } else { 2 }, 3000);
             opts.mode = t.below(3);
             input = match opts.mode {
-                0 => b.std_file(),
+                0 => b.file(Some(b.expect.len() as u64)),
                 1 => {
                     opts.provided = Some(b.expect.len() as u64);
                     // the ignored header field: all-ones, zero, the true size, garbage
@@ -252,7 +258,11 @@ fn gen(t: &mut Tape, _tier: Tier) -> Scenario {
         }
         3 => {
             let dict = t.range(1, 5000);
-            let b = gen_lzma_raw_dict(t, dict, 2, 2000);
+            let sized_marker = t.below(5) == 0;
+            if sized_marker {
+                sc.set_i("sized_marker", 1);
+            }
+            let b = gen_lzma_raw_dict(t, dict, if sized_marker { 1 } else { 2 }, 2000);
             raw = RawSpec {
                 lc: b.props.lc,
                 lp: b.props.lp,
@@ -304,7 +314,7 @@ fn gen(t: &mut Tape, _tier: Tier) -> Scenario {
     let second = input.clone();
     let (mut trailing, tn) = draw_trailing(t, &second);
     // chained use: decode two payloads back to back from one reader
-    let chained = !must_reject && t.below(4) == 0;
+    let chained = !must_reject && sc.i("sized_marker") == 0 && t.below(4) == 0;
     if chained {
         trailing = second.clone();
         sc.set_i("chained", 1);
@@ -470,6 +480,24 @@ fn exec(sc: &Scenario, ctx: &mut Ctx) -> Vec<Violation> {
             format!("delivered {} bytes, expected {}", s.accepted.len(), expect.len()),
             sc,
         )];
+    }
+    if sc.i("sized_marker") == 1 {
+        // the size in effect ends the decode in front of the marker: the reader must
+        // stand exactly where it stands when nothing at all follows the payload
+        ctx.stats.hit("probe.size_bounded_payload_that_also_carries_an_end_marker");
+        let (v0, out0, used0) = simple_decode(ep, &input[..plen], &opts, &raw);
+        if !v0.is_ok() || out0 != *expect {
+            return vec![Violation::new("rejects_valid_payload", ep_name(ep), format!("alone (nothing after it): {} ({})", v0.short(), sc.note), sc)];
+        }
+        if ro.consumed != used0 || used0 > plen {
+            return vec![Violation::new(
+                "wrong_consumed_count",
+                ep_name(ep),
+                format!("reader left at offset {}; with nothing after the payload it is left at {} (payload incl. marker ends at {}; {})", ro.consumed, used0, plen, sc.note),
+                sc,
+            )];
+        }
+        return Vec::new();
     }
     if ro.consumed != plen {
         return vec![Violation::new(
